@@ -874,8 +874,8 @@ pub async fn client_tcp(dict: Arc<Dictionary>, spec: Vec<String>) -> String {
                         }
                         sent_total += end - off;
                         off = end;
-                        // (now and then most of a second of real time passes inside an answer)
-                        tokio::time::sleep(Duration::from_millis(if base % 5 == 2 && piece == 3 { 700 } else { 1 })).await;
+                        // (for every other scenario most of a second of real time passes inside the body of an answer)
+                        tokio::time::sleep(Duration::from_millis(if piece == 17 && (base / 1000) % 2 == 1 { 700 } else { 1 })).await;
                     }
                     if let Some(c) = cut {
                         if sent_total >= c {
